@@ -7,7 +7,7 @@ from strengths.rdoutput import RDTrajectory
 from harness.c05lib import raises
 
 _R = [-1, 0, 1, 2, 3]
-ENVMAPS = {(2, 1, 1): [0, 1], (3, 1, 1): [0, 0, 1], (2, 2, 1): [0, 1, 1, 0], (2, 2, 2): [0, 0, 1, 1, 0, 1, 0, 1], (1, 1, 3): [1, 1, 0]}
+ENVMAPS = {(2, 1, 1): [0, 1], (3, 1, 1): [0, 0, 1], (2, 2, 1): [0, 1, 1, 0], (2, 2, 2): [0, 0, 1, 1, 0, 1, 0, 1], (1, 1, 3): [1, 1, 0], (1, 2, 2): [0, 1, 1, 0], (2, 1, 2): [0, 0, 1, 1]}
 _S = {}
 
 
